@@ -14,12 +14,10 @@ EXPLANATION = (
     "primitive - attribute store, list/dict mutator, item store, in-place generic_visit - ever has as its target a location reached "
     "through a stream's _q_ast (R2), for every history of derive/execute operations; the fields _q_ast/_item_type are written only on "
     "self in ObjectStream.__init__ and on a fresh copy.copy(self) in clone_with_new_ast, and no stream method stores attributes on self "
-    "(R1); mutable default arguments are never mutated (R3)."
+    "(R1); mutable default arguments are never mutated (R3); (R7) a lambda supplied as an ast object becomes part of the new stream's query and "
+    "is patched in place while it is followed, so the operators must work on their own copy of it."
 )
-NOT_DECIDED = (
-    "aliasing created by a user who passes the same ast.Lambda object to two operators (lambda nodes are patched in place by design); "
-    "behaviour of user callbacks and executors (assumed not to mutate stream ASTs)."
-)
+NOT_DECIDED = "behaviour of user callbacks and executors (assumed not to mutate stream ASTs)."
 
 STREAM_FIELDS = {"_q_ast", "_item_type"}
 
@@ -146,3 +144,24 @@ def check(run: Run) -> None:
     # ---------------- R6: .. and that copy shares nothing with the stream's AST where the cleaner changes its shape
     run.rule("C11.R6", "the copy handed to the executor is the cleaner's own: what replaces a removed wrapper is taken from the copy, not from the stream's AST (C15.R3 re-evaluated)")
     run_stage(run, "c15", only={"C15.R3"})
+
+    # ---------------- R7: a lambda handed in as an ast object
+    run.rule("C11.R7", "a lambda supplied as an ast is copied before the pipeline patches it in place (its nodes end up in the new stream's query; the same object may already be part of another stream)")
+    pa = m.find_func("parse_as_ast", in_module="func_adl.util_ast")
+    from ..lib import view as _view7
+
+    pav = _view7(m, pa)
+    fa7 = TermCtx(m, max_depth=2, identity={"lambda_unwrap"}, opaque={"_parse_source_for_lambda", "global_getclosurevars"}).analysis(pav)
+    srcp = ("param", pa.pos_params[0])
+    n7 = 0
+    from ..terms import contains as _contains, unphi_terms as _unphi
+
+    for s_, n_ in fa7.returns():
+        if s_.value is None:
+            continue
+        n7 += 1
+        t7 = strip_sites(fa7.term_of(s_.value, n_))
+        for a7 in _unphi(t7):
+            own = a7 == srcp or (a7[0] in ("attr", "index", "subscript") and _contains(a7, lambda q: q == srcp) and not _contains(a7, lambda q: q[0] == "app"))
+            run.check(not own, "C11.R7", pa, s_, "the lambda that is processed is not the caller's own ast object", "parse_as_ast hands the caller's own ast.Lambda to the pipeline, which patches it in place (defaults filled in, call sites rewritten by callbacks) and builds the new stream's query from its nodes: deriving a second stream from the same lambda object changes the query of the first one", "work on a copy of the nodes", show(a7)[:200], key="caller's ast handed to the in-place pipeline")
+    run.floor("C11.R7", n7, 2, "returns of parse_as_ast")
